@@ -14,7 +14,9 @@ use stun_types::attribute::*;
 use stun_types::message::*;
 use stun_types::TransportType;
 
-pub const ADDRS: [&str; 4] = ["4:c0000201:3478", "4:c0000201:3479", "6:20010db8000000000000000000000001:3478", "4:0a000001:9"];
+pub const ADDRS: [&str; 6] = ["4:c0000201:3478", "4:c0000201:3479", "6:20010db8000000000000000000000001:3478", "4:0a000001:9",
+    // an IPv4-mapped IPv6 address and the IPv4 address it maps: they are different socket addresses
+    "6:00000000000000000000ffffc0000207:3478", "4:c0000207:3478"];
 pub const TIDS: [u128; 5] = [0x01, 0x0203_0405_0607_0809_0a0b_0c0d, 0xffff_ffff_ffff_ffff_ffff_ffff, 0x2112_a442, 0x7000_0000_0000_0000_0000_0001];
 
 pub fn addr_of(s: &str) -> SocketAddr {
@@ -339,7 +341,7 @@ pub fn history(rng: &mut Rng, len: usize, tr: &str, timing: bool) -> String {
                 let ti = g.tid();
                 let cls = if g.rng.chance(5, 6) { 0 } else { 1 + g.rng.below(3) };
                 let ig = if timing { "n".to_string() } else { integ(g.rng) };
-                let to = ADDRS[g.rng.below(4) as usize];
+                let to = ADDRS[g.rng.below(ADDRS.len() as u64) as usize];
                 let now = g.next_now();
                 // message contents: empty, short, or anything up to the SOFTWARE limit
                 let n = if g.rng.chance(1, 6) { 1 + g.rng.below(700) as usize } else { g.rng.below(3) as usize * 5 };
@@ -392,7 +394,7 @@ pub fn history(rng: &mut Rng, len: usize, tr: &str, timing: bool) -> String {
                     },
                 };
                 let corrupt = if g.rng.chance(1, 6) { 1 } else if g.rng.chance(1, 8) { 2 + g.rng.below(3) } else { 0 };
-                let from = ADDRS[g.rng.below(4) as usize];
+                let from = ADDRS[g.rng.below(ADDRS.len() as u64) as usize];
                 g.push(format!("H/{}/{:x}/{}/{}/{}", kind, TIDS[ti], sign, corrupt, from));
             }
         }
